@@ -9,6 +9,8 @@
 (*     the system has not converged by the limit the solve fails (EDOM);   *)
 (*   - both tolerances must be met before the system counts as converged;  *)
 (*   - a successful solve returns the best point found.                    *)
+(* Convergence is declared either on an accepted step or when a rejected   *)
+(* trial lies within both tolerances of the best point.                    *)
 (*                                                                         *)
 (* The numeric content of an iteration is abstracted away: the environment *)
 (* chooses whether the new point is better than the best so far, whether   *)
@@ -78,12 +80,23 @@ Accept(L, c, m) == ~done /\ AcceptUpd(c, m) /\ Continue(L)
 
 Reject(L, m) == ~done /\ RejectUpd(m) /\ Continue(L)
 
-(* Convergence is declared only on an accepted step and only when both the *)
-(* parameter tolerance and the error-term tolerance are met.               *)
+(* Convergence on an accepted step: both the parameter tolerance and the   *)
+(* error-term tolerance are met (change from the previous best).           *)
 Converge(c, m, pTolMet, etTolMet) ==
     /\ ~done
     /\ pTolMet /\ etTolMet
     /\ AcceptUpd(c, m)
+    /\ Stop("ok")
+
+(* Convergence at the best point: the trial was rejected (no strictly      *)
+(* better point: rounding or noise floor), but it lies within both         *)
+(* tolerances of the best point.  The state is restored to the best point, *)
+(* which is the result.  Without this exit a loop that has reached the     *)
+(* optimum could only end at the iteration limit.                          *)
+ConvergeAtBest(m, pTolMet, etTolMet) ==
+    /\ ~done
+    /\ pTolMet /\ etTolMet
+    /\ RejectUpd(m)
     /\ Stop("ok")
 
 (* The iteration that reaches the limit without converging ends the call   *)
